@@ -497,3 +497,66 @@ func genParserCollide(seed int64, n int, tier string) []Script {
 }
 
 func init() { generators["parser-collide"] = genParserCollide }
+
+// genParserCap: the capacity boundary of the internal buffer. ParserBuffer
+// grows its slice to 2t+7 bytes (at least 1024, at most BufferSize+7), and
+// Reset(data) either adopts the caller's slice (if it has the 7-byte margin
+// the 8-byte loads of the hash parsers need) or copies into the internal
+// one. The scripts put len(data) right at the internal capacity minus the
+// margin, with caller capacities of 0..8 spare bytes, after a first use that
+// left the internal slice partially grown.
+func genParserCap(seed int64, n int, tier string) []Script {
+	r := rand.New(rand.NewSource(seed))
+	var out []Script
+	for i := 0; i < n; i++ {
+		kind := parserKinds[i%len(parserKinds)]
+		cfg := genParserCfg(r, kind, 200)
+		B := pickInt(r, 1100, 1500, 2100)
+		cfg["BufferSize"], cfg["ShrinkSize"] = B, pickInt(r, 0, 1, B/2)
+		cfg["WindowSize"] = pickInt(r, B, 64, 2*B, 0)
+		cfg["BlockSize"] = pickInt(r, 256, 512, 1024, 0)
+		if kind == "GSAP" || kind == "OSAP" {
+			cfg["WindowSize"] = pickInt(r, B, 2*B)
+		}
+		w := pickInt(r, 1, 100, 508, 509, 515, 600)
+		icap := 1024
+		if 2*w+7 > icap {
+			icap = 2*w + 7
+		}
+		if icap > B+7 {
+			icap = B + 7
+		}
+		first, _ := genInput(r, w)
+		l := icap - 7 + pickInt(r, -1, 0, 1, 2, 3, 4, 6, 7)
+		if l > B {
+			l = B
+		}
+		// low-entropy data keeps the blocks (and the recorded events) small
+		pat := make([]byte, 1+r.Intn(12))
+		for j := range pat {
+			pat[j] = byte(r.Intn(3))
+		}
+		data := make([]byte, l)
+		for j := range data {
+			data[j] = pat[j%len(pat)]
+			if r.Intn(40) == 0 {
+				data[j] = byte(r.Intn(256))
+			}
+		}
+		ops := []map[string]any{
+			{"op": "write", "p": B2(first)},
+			{"op": "parse", "flags": 0},
+			{"op": "reset", "data": B2(data), "cap": pickInt(r, 0, 0, 1, 3, 6, 7, 8)},
+		}
+		for k := 0; k < 12; k++ {
+			ops = append(ops, map[string]any{"op": "parse", "flags": r.Intn(4) / 3})
+		}
+		ops = append(ops, map[string]any{"op": "write", "p": B2(first)}, map[string]any{"op": "parse", "flags": 0},
+			map[string]any{"op": "byteat", "rel": "end", "d": -1})
+		out = append(out, Script{Tid: "parser-cap-" + itoa(seed) + "-" + itoa(int64(i)), Comp: "parser", Cfg: cfg,
+			Ops: ops, Tags: []string{"go", kind, "capboundary"}})
+	}
+	return out
+}
+
+func init() { generators["parser-cap"] = genParserCap }
